@@ -69,6 +69,8 @@ type ReplayFile struct {
 	Mode     string        `json:"mode"`
 	ND       []sym.NDValue `json:"nd"`
 	Tier     string        `json:"tier"`
+	Sched    bool          `json:"sched,omitempty"`
+	MaxPre   int           `json:"max_preempt,omitempty"`
 }
 
 func readJSON(path string, v interface{}) error {
@@ -80,6 +82,7 @@ func readJSON(path string, v interface{}) error {
 }
 
 type nativeRunner struct {
+	overlaySched string
 	verif   string
 	repo    string
 	work    string
@@ -88,6 +91,54 @@ type nativeRunner struct {
 	tier    string
 	builds  int
 	buildS  float64
+}
+
+// schedOverlay extends the plain overlay with copies of the repository's sources in which the import of
+// "sync" is replaced by the scheduling-aware drop-in (internal/verifsync). Nothing is written into /repo.
+func (n *nativeRunner) schedOverlay() (string, error) {
+	if n.overlaySched != "" {
+		return n.overlaySched, nil
+	}
+	if err := n.ensureOverlay(); err != nil {
+		return "", err
+	}
+	var doc struct{ Replace map[string]string }
+	if err := readJSON(n.overlay, &doc); err != nil {
+		return "", err
+	}
+	k := 0
+	for _, dir := range []string{"models", "websocket", "modules/vikja", "modules/odal", "modules/dagaz", "receipt", "featureflag"} {
+		ents, _ := os.ReadDir(filepath.Join(n.repo, dir))
+		for _, en := range ents {
+			name := en.Name()
+			if en.IsDir() || !strings.HasSuffix(name, ".go") || strings.HasSuffix(name, "_test.go") {
+				continue
+			}
+			src := filepath.Join(n.repo, dir, name)
+			b, err := os.ReadFile(src)
+			if err != nil {
+				continue
+			}
+			var nb []byte
+			switch {
+			case bytes.Contains(b, []byte("\t\"sync\"\n")):
+				nb = bytes.Replace(b, []byte("\t\"sync\"\n"), []byte("\tsync \"github.com/aukilabs/hagall/internal/verifsync\"\n"), 1)
+			case bytes.Contains(b, []byte("import \"sync\"\n")):
+				nb = bytes.Replace(b, []byte("import \"sync\"\n"), []byte("import sync \"github.com/aukilabs/hagall/internal/verifsync\"\n"), 1)
+			default:
+				continue
+			}
+			k++
+			dst := filepath.Join(n.work, fmt.Sprintf("sched_%d_%s", k, name))
+			if err := os.WriteFile(dst, nb, 0o644); err != nil {
+				return "", err
+			}
+			doc.Replace[src] = dst
+		}
+	}
+	b, _ := json.Marshal(doc)
+	n.overlaySched = filepath.Join(n.work, "overlay_sched.json")
+	return n.overlaySched, os.WriteFile(n.overlaySched, b, 0o644)
 }
 
 func (n *nativeRunner) ensureOverlay() error {
@@ -123,7 +174,7 @@ func (n *nativeRunner) ensureOverlay() error {
 		sort.Strings(fns)
 		pkgName := filepath.Base(dir)
 		var sb strings.Builder
-		sb.WriteString("//go:build verif\n\npackage " + pkgName + "\n\nimport (\n\t\"fmt\"\n\t\"os\"\n\t\"testing\"\n\n\t\"github.com/aukilabs/hagall/internal/verifnd\"\n)\n\n")
+		sb.WriteString("//go:build verif\n\npackage " + pkgName + "\n\nimport (\n\t\"fmt\"\n\t\"os\"\n\t\"testing\"\n\n\t\"github.com/aukilabs/hagall/internal/verifnd\"\n\t\"github.com/aukilabs/hagall/internal/verifsync\"\n)\n\nfunc init() { verifnd.ParRunner = verifsync.RunPar }\n\n")
 		sb.WriteString("func TestVerifReplay(t *testing.T) {\n\tif err := verifnd.Load(os.Getenv(\"VERIFND_REPLAY\")); err != nil {\n\t\tt.Fatal(err)\n\t}\n")
 		sb.WriteString("\tdefer func() {\n\t\tif r := recover(); r != nil {\n\t\t\tfmt.Printf(\"VERIFND-PANIC %v\\n\", r)\n\t\t\tpanic(r)\n\t\t}\n\t}()\n")
 		sb.WriteString("\tswitch os.Getenv(\"VERIFND_FN\") {\n")
@@ -143,15 +194,26 @@ func (n *nativeRunner) ensureOverlay() error {
 }
 
 func (n *nativeRunner) binary(pkg string, race bool) (string, error) {
-	key := pkg + "|" + strconv.FormatBool(race)
+	return n.binaryMode(pkg, race, false)
+}
+
+func (n *nativeRunner) binaryMode(pkg string, race, sched bool) (string, error) {
+	key := pkg + "|" + strconv.FormatBool(race) + "|" + strconv.FormatBool(sched)
 	if b, ok := n.bins[key]; ok {
 		return b, nil
 	}
 	if err := n.ensureOverlay(); err != nil {
 		return "", err
 	}
-	out := filepath.Join(n.work, strings.ReplaceAll(pkg, "/", "_")+map[bool]string{true: ".race", false: ""}[race]+".test")
-	args := []string{"test", "-c", "-tags", "verif", "-vet=off", "-overlay", n.overlay, "-o", out}
+	ov := n.overlay
+	if sched {
+		var err error
+		if ov, err = n.schedOverlay(); err != nil {
+			return "", err
+		}
+	}
+	out := filepath.Join(n.work, strings.ReplaceAll(pkg, "/", "_")+map[bool]string{true: ".race", false: ""}[race]+map[bool]string{true: ".sched", false: ""}[sched]+".test")
+	args := []string{"test", "-c", "-tags", "verif", "-vet=off", "-overlay", ov, "-o", out}
 	if race {
 		args = append(args, "-race")
 	}
@@ -172,7 +234,11 @@ func (n *nativeRunner) binary(pkg string, race bool) (string, error) {
 
 // run executes harness fn natively with the given replay values. Returns combined output and whether it timed out.
 func (n *nativeRunner) run(pkg, fn string, nd []sym.NDValue, race bool, timeout time.Duration, tag string) (string, error) {
-	bin, err := n.binary(pkg, race)
+	return n.runMode(pkg, fn, nd, race, false, 0, timeout, tag)
+}
+
+func (n *nativeRunner) runMode(pkg, fn string, nd []sym.NDValue, race, sched bool, maxPre int, timeout time.Duration, tag string) (string, error) {
+	bin, err := n.binaryMode(pkg, race, sched)
 	if err != nil {
 		return "", err
 	}
@@ -182,6 +248,9 @@ func (n *nativeRunner) run(pkg, fn string, nd []sym.NDValue, race bool, timeout 
 	cmd := exec.Command(bin, "-test.run", "^TestVerifReplay$", "-test.count=1", "-test.timeout", timeout.String())
 	cmd.Dir = filepath.Join(n.repo, pkg)
 	cmd.Env = append(os.Environ(), "VERIFND_REPLAY="+rf, "VERIFND_FN="+fn, "VERIF_TIER="+n.tier)
+	if sched {
+		cmd.Env = append(cmd.Env, "VERIFND_SCHED=1", fmt.Sprintf("VERIFND_MAXPRE=%d", maxPre))
+	}
 	var buf bytes.Buffer
 	cmd.Stdout, cmd.Stderr = &buf, &buf
 	done := make(chan error, 1)
@@ -212,7 +281,7 @@ func confirms(kind, label, out string) bool {
 	case "race":
 		return strings.Contains(out, "WARNING: DATA RACE")
 	case "deadlock":
-		return strings.Contains(out, "test timed out") || strings.Contains(out, "KILLED-BY-WATCHDOG") || strings.Contains(out, "all goroutines are asleep")
+		return strings.Contains(out, "test timed out") || strings.Contains(out, "KILLED-BY-WATCHDOG") || strings.Contains(out, "all goroutines are asleep") || strings.Contains(out, "VERIFND-DEADLOCK")
 	default: // run-time panics
 		return strings.Contains(out, "VERIFND-PANIC") || strings.Contains(out, "panic:") || strings.Contains(out, "fatal error:")
 	}
@@ -272,7 +341,7 @@ func cmdCheck(args []string) {
 			os.Exit(2)
 		}
 		nr := &nativeRunner{verif: *verif, repo: *repo, work: work, bins: map[string]string{}, tier: rf.Tier}
-		out, err := nr.run(rf.Pkg, rf.Harness, rf.ND, rf.Mode == "race", 60*time.Second, "manual")
+		out, err := nr.runMode(rf.Pkg, rf.Harness, rf.ND, rf.Mode == "race", rf.Sched, rf.MaxPre, 60*time.Second, "manual")
 		if err != nil {
 			fmt.Println(err)
 			os.RemoveAll(work)
@@ -489,11 +558,12 @@ func cmdCheck(args []string) {
 			if mode == "race" || hasKind(v.ND, "order") || hasKind(v.ND, "select") {
 				tries = 25
 			}
-			if hasKind(v.ND, "sched") && v.Kind != "race" {
-				tries = 200
+			useSched := hasKind(v.ND, "sched") && v.Kind != "race"
+			if useSched {
+				tries = 3
 			}
 			for k := 0; k < tries && !confirmed; k++ {
-				out, err = nr.run(h.Pkg, h.Fn, v.ND, mode == "race", timeout, tag)
+				out, err = nr.runMode(h.Pkg, h.Fn, v.ND, mode == "race", useSched, pre, timeout, tag)
 				if err != nil {
 					fail2(err.Error())
 					break
@@ -517,7 +587,7 @@ func cmdCheck(args []string) {
 			violations++
 			os.MkdirAll(replayDir, 0o755)
 			rp := filepath.Join(replayDir, fmt.Sprintf("%s-%s-%d.json", h.Fn, sanitize(v.Label), i))
-			rf := ReplayFile{Property: prop, Pkg: h.Pkg, Harness: h.Fn, Kind: v.Kind, Label: v.Label, Keys: v.Keys, Msg: v.Msg, Where: v.Where, Mode: mode, ND: v.ND, Tier: tier}
+			rf := ReplayFile{Property: prop, Pkg: h.Pkg, Harness: h.Fn, Kind: v.Kind, Label: v.Label, Keys: v.Keys, Msg: v.Msg, Where: v.Where, Mode: mode, ND: v.ND, Tier: tier, Sched: useSched, MaxPre: pre}
 			b, _ := json.MarshalIndent(rf, "", " ")
 			os.WriteFile(rp, b, 0o644)
 			fmt.Printf("VIOLATION property=%s replay=%s\n   %s label=%s keys=%v: %s\n   at %s\n", prop, rp, v.Kind, v.Label, v.Keys, v.Msg, v.Where)
